@@ -564,7 +564,7 @@ func (c *cache) get(nocache bool, ctx context.Context, url string, start, limit 
 	defer seg.Unlock()
 	seg.nreads++
 	if seg.done {
-		return seg.d, nil
+		return eth.CopyBlocks(seg.d), nil
 	}
 
 	blocks, err := f(ctx, url, start, limit)
@@ -572,9 +572,12 @@ func (c *cache) get(nocache bool, ctx context.Context, url string, start, limit 
 		return nil, fmt.Errorf("cache get: %w", err)
 	}
 
+	// The cached blocks are never handed out: every reader attaches
+	// logs, receipts or traces to the blocks it gets, and readers run
+	// concurrently. Each gets its own copy.
 	seg.d = blocks
 	seg.done = true
-	return seg.d, nil
+	return eth.CopyBlocks(seg.d), nil
 }
 
 func (c *Client) blocks(ctx context.Context, url string, start, limit uint64) ([]eth.Block, error) {
